@@ -19,7 +19,8 @@ CONSTANTS Alphabet,          \* one-character strings
           ExportAll,         \* export every template of length <= ExportAll (model prediction, for replay)
           ExportAcc,         \* export every accepted template of length <= ExportAcc that is not literal text only
           CacheLen, CacheOps,
-          MaxArgs, VLen
+          MaxArgs, VLen,
+          ExportSplit        \* TRUE: export every value list with the model's split result (for replay)
 C == INSTANCE NamedArgsContract
 
 VARIABLES t, r,              \* SpecEnum: template, reference-parser state after t
@@ -169,6 +170,11 @@ SplitLoop(s, start, idx, out) ==
   ELSE IF idx < Len(out) THEN [out EXCEPT ![idx + 1] = Sub(s, start, Len(s) - start)] ELSE out
 JoinSplit(v) == SplitLoop(Join(v), 0, 0, [i \in 1..Len(v) |-> <<>>])
 
+RECURSIVE SumLen(_, _)
+SumLen(v, i) == IF i > Len(v) THEN 0 ELSE Len(v[i]) + SumLen(v, i + 1)
+\* export configuration: total number of bytes bounded by VLen instead of the length of each value
+SplitBudgetC == ExportSplit => SumLen(vs, 1) <= VLen
+ExportSplitC == (ExportSplit /\ Len(vs) > 0) => PrintT("SPL " \o ToJson([vs |-> vs, out |-> JoinSplit(vs)]))
 ContainsSep(s) == FindSep(s, 0) # NPOS
 \* C19 on the model: every value comes back as it went in
 SplitRoundTrip == JoinSplit(vs) = vs
